@@ -264,7 +264,9 @@ def entry_strategy() -> Any:
 def setup_strategy() -> Any:
     # clash: a shared (foreign-broker) task registered under the NAME of an own task - the own broker's task keeps priority
     task = st.fixed_dictionaries({"where": st.sampled_from(["own", "own", "own", "shared"]), "entries": st.lists(entry_strategy(), max_size=5),
-                                  "clash": st.sampled_from([False, True])})
+                                  "clash": st.sampled_from([False, True]),
+                                  # declared WITHOUT labels; the schedule is attached afterwards through the public attribute (task.labels["schedule"] = [...])
+                                  "attach_later": st.sampled_from([False, False, True])})
     return st.lists(task, min_size=1, max_size=3)
 
 
@@ -328,7 +330,11 @@ class LabelSim:
                 f.__module__ = __name__
                 f.__name__ = name
                 br = self.broker if t["where"] == "own" else self.shared
-                self.tasks.append(br.register_task(f, task_name=name, schedule=raw))
+                if t.get("attach_later"):
+                    self.tasks.append(br.register_task(f, task_name=name))
+                    self.tasks[-1].labels["schedule"] = raw
+                else:
+                    self.tasks.append(br.register_task(f, task_name=name, schedule=raw))
                 self.raw[key_] = raw
                 if t["where"] == "own":
                     self.model[key_] = [dict(r) for r in raw]
